@@ -3,143 +3,175 @@ import Fabio.Model.C01
 /-!
 Obligations over the facts regenerated from `/repo` on every run (C01): what the model of
 `passingServices` / `checksWithTagPrefix` / `makeConfig` / `watchBackend` silently depends on.
+
+The facts pin MEANING, not spelling (see the header of `tools/factgen/c01.go`): every function is a list of guarded
+actions `c1 & c2 & … => action` with the conditions in a normal form (De Morgan, `!=` as the negation of `==`,
+operands of `==` sorted, disjunctions as else-if alternatives, guard clauses folded into the conditions of what
+follows, unlabelled `continue` not an action), identifiers canonicalised by role (`recv`, `p<i>`, `r<i>`,
+`<callee>#<i>` for a local assigned once from a call, `v<k>` otherwise, `L<k>` labels, `helper<k>` for unexported
+helpers no hook names, `$KEY` for the join-key type), package constants inlined, switches turned into if-chains,
+and `makeConfig` followed into unexported helpers. `>` marks the loop nesting depth.
 -/
 namespace Fabio.Props.C01Facts
 open Fabio Fabio.Model.C01
 
 /-! ### `passing.go` -/
 
-/-- the check ids and the status the loop compares with are the model's constants -/
+/-- the check ids and the status the loops compare with are the model's constants -/
 theorem passing_literals :
-    Generated.C01.innerLiterals.map String.toList = [serf, critical, nodeMaint, svcMaintPfx, critical] := by
+    Generated.C01.passingServicesLiterals.map String.toList = [nodeMaint, svcMaintPfx, critical, serf] ∧
+    Generated.C01.passingHelper0Literals.map String.toList = [[], nodeMaint, svcMaintPfx, serf] ∧
+    Generated.C01.checksWithTagPrefixLiterals.map String.toList = [nodeMaint, svcMaintNoColon, serf] := by
   repeat' apply And.intro
   all_goals first | rfl | decide
 
-/-- the inner loop: guarded by node equality; counting branch first, then the three `continue CHECKS`
-tests in the model's order (serf ∧ critical, node maintenance with any status, service maintenance of
-*this* service id ∧ critical) -/
-theorem inner_loop_shape :
-    Generated.C01.innerGuard = "svc.Node == c.Node" ∧
-    Generated.C01.innerConds =
-      ["svc.ServiceID == c.ServiceID",
-       "c.CheckID == \"serfHealth\" && c.Status == \"critical\"",
-       "c.CheckID == \"_node_maintenance\"",
-       "c.CheckID == \"_service_maintenance:\"+svc.ServiceID && c.Status == \"critical\""] ∧
-    Generated.C01.innerActions = ["count", "continue-outer", "continue-outer", "continue-outer"] ∧
-    Generated.C01.countBranch = ["total++", "if hasStatus(c, status) { passing++ }"] := by
+/-- `passingServices` (v0 result, v1 outer element, v2 total, v3 passing, v4 inner element; p0 checks, p1 statuses,
+p2 strict; helper0 = isServiceCheck, helper1 = hasStatus): only service checks are considered; the inner loop runs
+over the *same* list; on the same node: a check of the same service id counts (and counts as passing when its
+status is accepted); then, in this order, critical serfHealth / `_node_maintenance` with any status / critical
+`_service_maintenance:<id of the outer element>` leave the outer iteration; the element is appended iff
+`passing != 0` and (not strict or total == passing). This is the model's `inner` / `keep`. -/
+theorem passing_services_shape :
+    Generated.C01.passingServicesActions =
+      ["range p0",
+       "> helper0(v1) => range p0",
+       ">> v1.Node == v4.Node & v1.ServiceID == v4.ServiceID => v2++",
+       ">> v1.Node == v4.Node & v1.ServiceID == v4.ServiceID & helper1(v4, p1) => v3++",
+       ">> v1.Node == v4.Node & \"serfHealth\" == v4.CheckID & \"critical\" == v4.Status => continue L0",
+       ">> v1.Node == v4.Node & \"serfHealth\" != v4.CheckID & \"_node_maintenance\" == v4.CheckID => continue L0",
+       ">> v1.Node == v4.Node & \"serfHealth\" == v4.CheckID & \"critical\" != v4.Status & \"_node_maintenance\" == v4.CheckID => continue L0",
+       ">> v1.Node == v4.Node & \"serfHealth\" != v4.CheckID & \"_node_maintenance\" != v4.CheckID & \"_service_maintenance:\" + v1.ServiceID == v4.CheckID & \"critical\" == v4.Status => continue L0",
+       "> helper0(v1) & 0 != v3 & !p2 => v0 = append(v0, v1)",
+       "> helper0(v1) & 0 != v3 & p2 & v2 == v3 => v0 = append(v0, v1)",
+       "return v0"] := by
   repeat' apply And.intro
   all_goals first | rfl | decide
 
-/-- the outer loop: skip non-service checks, run the inner loop over the *same* list, then the
-`passing == 0` test, then the strict test, then append -/
-theorem outer_loop_shape :
-    Generated.C01.outerRange = "_,svc := range checks" ∧
-    Generated.C01.outerShape =
-      ["if !isServiceCheck(svc) continue", "var total, passing int", "range checks",
-       "if passing == 0 continue", "if strict && total != passing continue", "p = append(p, svc)"] := by
-  repeat' apply And.intro
-  all_goals first | rfl | decide
-
-theorem is_service_check_pinned :
-    Generated.C01.isServiceCheckLiterals.map String.toList = [[], serf, nodeMaint, svcMaintPfx] ∧
-    Generated.C01.isServiceCheckExpr =
-      "c.ServiceID != \"\" && c.CheckID != \"serfHealth\" && c.CheckID != \"_node_maintenance\" && !strings.HasPrefix(c.CheckID, \"_service_maintenance:\")" ∧
-    Generated.C01.hasStatusConds = ["c.Status == s"] := by
+/-- `isServiceCheck` (helper0) and `hasStatus` (helper1) -/
+theorem passing_helpers_shape :
+    Generated.C01.passingHelperCount = 2 ∧
+    Generated.C01.passingHelper0Actions =
+      ["return \"\" != p0.ServiceID & \"serfHealth\" != p0.CheckID & \"_node_maintenance\" != p0.CheckID & !(strings.HasPrefix(p0.CheckID, \"_service_maintenance:\"))"] ∧
+    Generated.C01.passingHelper1Actions = ["range p1",
+       "> p0.Status == v0 => return true",
+       "return false"] := by
   repeat' apply And.intro
   all_goals first | rfl | decide
 
 /-! ### `service.go` -/
 
-/-- `checksWithTagPrefix` keeps serf / node-maintenance / `_service_maintenance…` checks unconditionally and
-any check with a tag that has the prefix -/
-theorem filter_pinned :
-    Generated.C01.filterKeepLiterals.map String.toList = [serf, nodeMaint, svcMaintNoColon] ∧
-    Generated.C01.filterKeepCond =
-      "c.CheckID == \"serfHealth\" || c.CheckID == \"_node_maintenance\" || strings.HasPrefix(c.CheckID, \"_service_maintenance\")" ∧
-    Generated.C01.filterKeepContinues = true ∧
-    Generated.C01.filterTagRange = "c.ServiceTags" ∧
-    Generated.C01.filterTagConds = ["strings.HasPrefix(t, prefix)"] := by
+/-- `checksWithTagPrefix` (p0 prefix, p1 checks, v0 result, v1 element, v2 tag): serf / node-maintenance /
+`_service_maintenance…` checks are appended unconditionally, any other check once if one of its tags has the prefix -/
+theorem filter_shape :
+    Generated.C01.checksWithTagPrefixActions =
+      ["range p1",
+       "> \"serfHealth\" == v1.CheckID => v0 = append(v0, v1)",
+       "> \"serfHealth\" != v1.CheckID & \"_node_maintenance\" == v1.CheckID => v0 = append(v0, v1)",
+       "> \"serfHealth\" != v1.CheckID & \"_node_maintenance\" != v1.CheckID & strings.HasPrefix(v1.CheckID, \"_service_maintenance\") => v0 = append(v0, v1)",
+       "> \"serfHealth\" != v1.CheckID & \"_node_maintenance\" != v1.CheckID & !(strings.HasPrefix(v1.CheckID, \"_service_maintenance\")) => range v1.ServiceTags",
+       ">> strings.HasPrefix(v2, p0) => v0 = append(v0, v1)",
+       ">> strings.HasPrefix(v2, p0) => break",
+       "return v0"] := by
   repeat' apply And.intro
   all_goals first | rfl | decide
 
-/-- `Watch`: health state → filter → passing (of the filtered list, configured statuses, strict flag) →
-makeConfig → send; strict means `checksRequired == "all"` -/
+/-- `Watch`: health state → filter (configured prefix) → passing (of the *filter's result*, configured statuses,
+strict flag = the field `f3` of the monitor) → makeConfig (of the passing result) → send; `f3` is initialised with
+`checksRequired == "all"` (fields of the receiver are written by position: f0 client, f1 config, f2 dc, f3 strict) -/
 theorem watch_pipeline_order :
-    Generated.C01.watchOrder =
-      ["w.client.Health().State(\"any\", q)",
-       "prefixedChecks = checksWithTagPrefix(w.config.TagPrefix, checks)",
-       "passing = passingServices(prefixedChecks, w.config.ServiceStatus, w.strict)",
-       "send updates <- w.makeConfig(passing)"] ∧
-    Generated.C01.strictExpr = "config.ChecksRequired == \"all\"" := by
+    Generated.C01.watchFlow = ["State",
+       "checksWithTagPrefix(recv.f1.TagPrefix, State#0)",
+       "passingServices(checksWithTagPrefix#0, recv.f1.ServiceStatus, recv.f3)",
+       "makeConfig(passingServices#0)",
+       "send p0 <- makeConfig#0"] ∧
+    Generated.C01.strictInit = ["f3 = p1.ChecksRequired == \"all\""] := by
   repeat' apply And.intro
   all_goals first | rfl | decide
 
-/-- the join key is built the same way where the passing set is filled (`makeConfig`) and where it is
-looked up (`serviceConfig`), and it is the (node, service id) pair — a struct of two strings, compared field
-by field (the model's `keyPair`); the set is per service name; entries missing from it are skipped -/
+/-- the join key is built the same way where the passing set is filled (`makeConfig`, followed into its helpers)
+and where it is looked up (the function that queries `Catalog().Service`), and it is the (node, service id) pair — a
+struct of two strings, compared field by field (the model's `keyPair`); the set is per service name; entries missing
+from it are skipped; the order of events in `makeConfig`: fill the set, one goroutine per service, catalog lookup,
+`routecmd.build`, reverse sort, join with newlines -/
 theorem join_key_same_on_both_sides :
     Generated.C01.keyMake = Generated.C01.keyLookup ∧
-    Generated.C01.keyMake = "instanceID{X.Node, X.ServiceID}" ∧
+    Generated.C01.keyMake = "$KEY{X.Node, X.ServiceID}" ∧
     Generated.C01.keyTypeFields = ["string", "string"] ∧
     Generated.C01.keyMakeName = "X.ServiceName" ∧
-    Generated.C01.keyStore = "m[name][id] = true" ∧
-    Generated.C01.serviceConfigCalls = ["w.serviceConfig(name, passing)"] ∧
-    Generated.C01.catalogQueryArg = ["name"] ∧
     Generated.C01.keyLookupSkipsMissing = true ∧
-    Generated.C01.makeConfigSorts = ["sort.Sort(sort.Reverse(sort.StringSlice(config)))"] := by
+    Generated.C01.makeConfigEvents = ["store set[name][key]",
+       "go",
+       "Catalog.Service",
+       "build",
+       "sort.Sort",
+       "sort.Reverse",
+       "sort.StringSlice",
+       "strings.Join \"\\n\""] := by
   repeat' apply And.intro
   all_goals first | rfl | decide
 
 /-! ### faults and index anomalies -/
 
-/-- `serviceConfig` gives nothing for a service whose catalog lookup fails (`return nil` right after the lookup),
-and its only other results are the early `nil` and the commands built in this call (model: `joinedF`) -/
+/-- the lookup function (`serviceConfig`; p0 service name, p1 passing set, r0 result): nothing for the empty name or
+an empty set; the catalog is asked for *that name*; **on a lookup error it returns nil**; otherwise the commands built
+in this call for the entries whose key is in the set (model: `joinedF`) -/
 theorem service_config_nil_on_lookup_error :
-    Generated.C01.serviceConfigOnLookupError = ["log", "return nil"] ∧
-    Generated.C01.serviceConfigReturns = ["return nil", "return nil", "return config"] := by
+    Generated.C01.lookupActions =
+      ["\"\" == p0 => return nil",
+       "\"\" != p0 & 0 == len(p1) => return nil",
+       "\"\" != p0 & 0 != len(p1) => Service#0, _, Service#2 := recv.f0.Catalog().Service(p0, \"\", v0)",
+       "\"\" != p0 & 0 != len(p1) & Service#2 != nil => return nil",
+       "\"\" != p0 & 0 != len(p1) & Service#2 == nil => range Service#0",
+       "> v3 => r0 = append(r0, build#0...)",
+       "\"\" != p0 & 0 != len(p1) & Service#2 == nil => return r0"] := by
   repeat' apply And.intro
   all_goals first | rfl | decide
 
-/-- `ServiceMonitor` keeps no state between rounds: its fields are the client, the configuration, the datacenter
-and the strict flag, no method assigns to a field, and the package has no package-level variable — each emitted
-text is a function of the round's own answers (model: `watchOnceF` has no state argument) -/
+/-- `ServiceMonitor` keeps no state between rounds: its fields are a client, the configuration, a string and a bool
+(whatever they are called), no method assigns to a field of the receiver, and the package has no package-level
+variable — each emitted text is a function of the round's own answers (model: `watchOnceF` has no state argument) -/
 theorem service_monitor_stateless :
-    Generated.C01.serviceMonitorFields = ["client", "config", "dc", "strict"] ∧
-    Generated.C01.serviceMonitorFieldWrites = [] ∧
-    Generated.C01.consulPackageVars = [] := by
+    Generated.C01.serviceMonitorFieldTypes = ["*api.Client", "*config.Consul", "bool", "string"] ∧
+    Generated.C01.serviceMonitorFieldWrites = 0 ∧
+    Generated.C01.consulPackageVarCount = 0 := by
   repeat' apply And.intro
   all_goals first | rfl | decide
 
-/-- `watchKV`: the only tests are the error test and the change test `value != lastValue || index != lastIndex`
-(no ordering comparison on the index: an index that goes backwards is a change like any other); what is remembered
-is written only together with the send. `Watch`: the index is only stored, never compared. -/
+/-- `watchKV` (p2 channel, v0 remembered index, v1 remembered value, helper0 = listKV called with the remembered
+index as wait index): on an error pause; otherwise publish and remember iff the value or the index differs — a
+*change* test, no ordering comparison on the index (an index that goes backwards is a change like any other).
+`Watch` only stores the index, it never compares it. -/
 theorem watchers_only_test_for_change :
-    Generated.C01.watchKVConds = ["err != nil", "value != lastValue || index != lastIndex"] ∧
-    Generated.C01.watchKVWrites = ["lastValue, lastIndex = value, index"] ∧
-    Generated.C01.watchKVSends = ["config <- value"] ∧
-    Generated.C01.watchConds = ["w.config.PollInterval != 0", "err != nil"] ∧
-    Generated.C01.watchWrites = ["lastIndex = meta.LastIndex"] ∧
-    Generated.C01.watchSends = ["updates <- w.makeConfig(passing)"] := by
+    Generated.C01.watchKVActions =
+      ["for",
+       "> helper0#0, helper0#1, helper0#2 := helper0(p0, p1, v0, p3, p4, p5)",
+       "> helper0#2 != nil => call time.Sleep(time.Second)",
+       "> helper0#2 == nil & helper0#0 != v1 => send p2 <- helper0#0",
+       "> helper0#2 == nil & helper0#0 == v1 & helper0#1 != v0 => send p2 <- helper0#0",
+       "> helper0#2 == nil & helper0#0 != v1 => v1, v0 = helper0#0, helper0#1",
+       "> helper0#2 == nil & helper0#0 == v1 & helper0#1 != v0 => v1, v0 = helper0#0, helper0#1"] ∧
+    Generated.C01.watchIndexWrites = ["v0 = State#1.LastIndex"] ∧
+    Generated.C01.watchIndexConds = [] := by
   repeat' apply And.intro
   all_goals first | rfl | decide
 
 /-! ### `main.go` -/
 
-/-- `watchBackend`: receive one event; service text, "\n", manual text; skip when equal to the remembered
-text; `NewTable`; on error `continue` *before* `SetTable`; `lastTable = nextTable` only after `SetTable`. -/
+/-- `watchBackend` (v0 nextTable, v1 lastTable, v2 svccfg, v3 mancfg, v6 the buffer): receive one event; service
+text, "\n", manual text; skip when equal to the remembered text; `NewTable`; only if it succeeded `SetTable` and
+then `lastTable = nextTable`; `SetTable` is called nowhere else in the function. -/
 theorem watch_backend_loop_shape :
     Generated.C01.watchBackendLoop =
-      ["select svccfg = <-svc | mancfg = <-man", "reset", "write svccfg", "write \"\\n\"", "write mancfg",
-       "skip-if-unchanged", "newtable t, err := route.NewTable(tableBuffer)", "on-error-continue",
-       "settable t", "remember"] := by
-  repeat' apply And.intro
-  all_goals first | rfl | decide
-
-/-- no other statement of the function writes the loop's locals or installs a table -/
-theorem watch_backend_writes :
-    Generated.C01.watchBackendWrites =
-      ["svccfg = <-svc", "mancfg = <-man", "nextTable = tableBuffer.String()", "route.SetTable(t)",
-       "lastTable = nextTable"] := by
+      ["select v2 = <-v7 | v3 = <-WatchManual#0",
+       "call v6.Reset()",
+       "call v6.WriteString(v2)",
+       "call v6.WriteString(\"\\n\")",
+       "call v6.WriteString(v3)",
+       "v0 = v6.String()",
+       "v0 != v1 => NewTable#0, v8 := route.NewTable(v6)",
+       "v0 != v1 & nil == v8 => call route.SetTable(NewTable#0)",
+       "v0 != v1 & nil == v8 => v1 = v0"] ∧
+    Generated.C01.watchBackendSetTableCalls = 1 := by
   repeat' apply And.intro
   all_goals first | rfl | decide
 
